@@ -10,3 +10,4 @@ def load_all():
     from . import quantity  # noqa
     from . import obtain  # noqa
     from . import values  # noqa
+    from . import arith  # noqa
